@@ -800,7 +800,10 @@ class Twist3(SMTwist):
             >>> S.pitch()
 
         """
-        return np.dot(self.w, self.v)
+        if len(self) == 1:
+            return np.dot(self.w, self.v)
+        else:
+            return np.array([np.dot(x[3:6], x[:3]) for x in self.data])
 
     def line(self):
         """
@@ -841,7 +844,10 @@ class Twist3(SMTwist):
             >>> S = Twist3(T)
             >>> S.pole()
         """
-        return np.cross(self.w, self.v) / self.theta()
+        if len(self) == 1:
+            return np.cross(self.w, self.v) / self.theta()
+        else:
+            return np.array([np.cross(x[3:6], x[:3]) / base.norm(x[3:6]) for x in self.data])
 
     def theta(self):
         """
@@ -864,7 +870,10 @@ class Twist3(SMTwist):
             >>> S = Twist3(T)
             >>> S.theta()
         """
-        return base.norm(self.w)
+        if len(self) == 1:
+            return base.norm(self.w)
+        else:
+            return np.array([base.norm(x[3:6]) for x in self.data])
 
     def exp(self, theta=None, units='rad'):
         """
